@@ -15,6 +15,12 @@ impl PeerSink for Capture {
     fn is_connected(&self) -> bool { true }
 }
 
+/// A key whose conversion to `String` (which `alias` performs on the caller's side of the
+/// registry lock) runs another registry operation: a deterministic way to land an operation
+/// between an `alias` call's entry and its critical section.
+struct ReKey { key: String, during: Box<dyn FnOnce()> }
+impl From<ReKey> for String { fn from(k: ReKey) -> String { (k.during)(); k.key } }
+
 fn h(v: u64) -> String { format!("{v:x}") }
 fn p(s: &str) -> u64 { u64::from_str_radix(s, 16).unwrap() }
 fn list(v: &[u64]) -> String { if v.is_empty() { "-".into() } else { v.iter().map(|x| h(*x)).collect::<Vec<_>>().join(".") } }
@@ -32,8 +38,47 @@ fn run_case(line: &str) -> String {
         let sink_of = |id: u64| -> Arc<Capture> { sinks[ids.iter().position(|x| *x == id).unwrap()].clone() };
         let mut outs = Vec::new();
         let mut bcount = 0u32;
+        let observe = |reg: &PeerRegistry, out: &str| -> String {
+            let present: String = ids.iter().map(|id| if reg.get(PeerId(*id)).map(|h| h.peer_id().0 == *id).unwrap_or(false) { '1' } else { '0' }).collect();
+            let by: Vec<String> = keys.iter().map(|k| reg.get_by(key(*k).as_str()).map(|ph| h(ph.peer_id().0)).unwrap_or_else(|| "-".into())).collect();
+            let al: Vec<String> = ids.iter().map(|id| list(&reg.aliases_for(PeerId(*id)).iter().map(|s| unkey(s)).collect::<Vec<_>>())).collect();
+            let kf: Vec<String> = ids.iter().map(|id| reg.key_for(PeerId(*id)).map(|s| h(unkey(&s))).unwrap_or_else(|| "-".into())).collect();
+            format!("{}/{}/{}/{}/{}/{}", out, h(reg.len() as u64), present, by.join(","), al.join(","), kf.join(","))
+        };
         for op in &ops {
             let t: Vec<&str> = op.split(':').collect();
+            if t[0] == "K" {
+                // K:<id>:<key>:<inner op...>: alias whose key conversion performs the inner op
+                let inner: Vec<String> = t[3..].iter().map(|s| s.to_string()).collect();
+                let inner_obs = Arc::new(Mutex::new(String::new()));
+                let (reg2, io2, sinks2, ids2) = (reg.clone(), inner_obs.clone(), sinks.clone(), ids.clone());
+                let during = Box::new(move || {
+                    let out = match inner[0].as_str() {
+                        "I" => { let id = p(&inner[1]); let s = sinks2[ids2.iter().position(|x| *x == id).unwrap()].clone(); reg2.insert(PeerHandle::new(PeerId(id), s)); "u".to_string() }
+                        "X" => format!("b{}", reg2.remove(PeerId(p(&inner[1]))).is_some() as u8),
+                        "L" => format!("b{}", reg2.alias(PeerId(p(&inner[1])), key(p(&inner[2]))) as u8),
+                        _ => panic!("bad inner op"),
+                    };
+                    *io2.lock().unwrap() = out;
+                });
+                // the state right after the inner op is sampled from inside the conversion too
+                let snap = Arc::new(Mutex::new(String::new()));
+                let (reg3, snap3, io3) = (reg.clone(), snap.clone(), inner_obs.clone());
+                let ids3 = ids.clone(); let keys3 = keys.clone();
+                let during2 = Box::new(move || {
+                    during();
+                    let out = io3.lock().unwrap().clone();
+                    let present: String = ids3.iter().map(|id| if reg3.get(PeerId(*id)).is_some() { '1' } else { '0' }).collect();
+                    let by: Vec<String> = keys3.iter().map(|k| reg3.get_by(key(*k).as_str()).map(|ph| h(ph.peer_id().0)).unwrap_or_else(|| "-".into())).collect();
+                    let al: Vec<String> = ids3.iter().map(|id| list(&reg3.aliases_for(PeerId(*id)).iter().map(|s| unkey(s)).collect::<Vec<_>>())).collect();
+                    let kf: Vec<String> = ids3.iter().map(|id| reg3.key_for(PeerId(*id)).map(|s| h(unkey(&s))).unwrap_or_else(|| "-".into())).collect();
+                    *snap3.lock().unwrap() = format!("{}/{}/{}/{}/{}/{}", out, h(reg3.len() as u64), present, by.join(","), al.join(","), kf.join(","));
+                });
+                let r = reg.alias(PeerId(p(t[1])), ReKey { key: key(p(t[2])), during: during2 });
+                outs.push(snap.lock().unwrap().clone());
+                outs.push(observe(&reg, &format!("b{}", r as u8)));
+                continue;
+            }
             let out = match t[0] {
                 "I" => { let id = p(t[1]); reg.insert(PeerHandle::new(PeerId(id), sink_of(id))); "u".to_string() }
                 "X" => { let id = p(t[1]); format!("b{}", reg.remove(PeerId(id)).is_some() as u8) }
@@ -60,12 +105,7 @@ fn run_case(line: &str) -> String {
                 }
                 _ => panic!("bad op"),
             };
-            // observable state
-            let present: String = ids.iter().map(|id| if reg.get(PeerId(*id)).map(|h| h.peer_id().0 == *id).unwrap_or(false) { '1' } else { '0' }).collect();
-            let by: Vec<String> = keys.iter().map(|k| reg.get_by(key(*k).as_str()).map(|ph| h(ph.peer_id().0)).unwrap_or_else(|| "-".into())).collect();
-            let al: Vec<String> = ids.iter().map(|id| list(&reg.aliases_for(PeerId(*id)).iter().map(|s| unkey(s)).collect::<Vec<_>>())).collect();
-            let kf: Vec<String> = ids.iter().map(|id| reg.key_for(PeerId(*id)).map(|s| h(unkey(&s))).unwrap_or_else(|| "-".into())).collect();
-            outs.push(format!("{}/{}/{}/{}/{}/{}", out, h(reg.len() as u64), present, by.join(","), al.join(","), kf.join(",")));
+            outs.push(observe(&reg, &out));
         }
         format!("steps={}", if outs.is_empty() { "-".into() } else { outs.join("|") })
     });
@@ -79,6 +119,9 @@ fn gen_cases(seed: u64, thorough: bool) -> Vec<String> {
     let mut alpha: Vec<String> = Vec::new();
     for i in 0..3 { alpha.push(format!("I:{i}")); alpha.push(format!("X:{i}")); for k in 0..3 { alpha.push(format!("L:{i}:{k}")); } }
     alpha.push("B".into());
+    // alias calls whose key conversion performs a removal / insertion / alias of the same or another peer
+    let mut kalpha: Vec<String> = Vec::new();
+    for i in 0..2 { for k in 0..2 { for inner in ["X:0", "X:1", "I:0", "I:1", "L:0:0", "L:1:0", "L:0:1"] { kalpha.push(format!("K:{i}:{k}:{inner}")); } } }
     let depth = if thorough { 5 } else { 4 };
     let n = alpha.len(); let total = n.pow(depth as u32);
     for idx in 0..total {
@@ -94,6 +137,18 @@ fn gen_cases(seed: u64, thorough: bool) -> Vec<String> {
         for _ in 0..d2 { ops.push(alpha[k % n].clone()); k /= n; }
         cases.push(format!("ids=0.1.2 keys=0.1.2 ops={};{}", prefix, ops.join(";")));
     }
+    // every re-entrant alias after every history of length <= 2 (quick) / 3 (thorough), followed by one more op
+    let dk = if thorough { 3 } else { 2 };
+    for len in 0..=dk {
+        for idx in 0..n.pow(len as u32) {
+            let mut k = idx; let mut pre = Vec::new();
+            for _ in 0..len { pre.push(alpha[k % n].clone()); k /= n; }
+            for ko in &kalpha {
+                let mut ops = pre.clone(); ops.push(ko.clone()); ops.push("B".into());
+                cases.push(format!("ids=0.1.2 keys=0.1.2 ops={}", ops.join(";")));
+            }
+        }
+    }
     let mut rng = Rng::new(seed);
     let nrand = if thorough { 20000 } else { 2000 };
     for _ in 0..nrand {
@@ -104,7 +159,9 @@ fn gen_cases(seed: u64, thorough: bool) -> Vec<String> {
             match rng.below(10) {
                 0 | 1 => ops.push(format!("I:{}", h(rng.below(ni)))),
                 2 | 3 => ops.push(format!("X:{}", h(rng.below(ni)))),
-                4 => ops.push("B".into()),
+                4 => { if rng.chance(1, 2) { ops.push("B".into()) } else {
+                    let inner = match rng.below(3) { 0 => format!("X:{}", h(rng.below(ni))), 1 => format!("I:{}", h(rng.below(ni))), _ => format!("L:{}:{}", h(rng.below(ni)), h(rng.below(nk))) };
+                    ops.push(format!("K:{}:{}:{}", h(rng.below(ni)), h(rng.below(nk)), inner)); } }
                 _ => ops.push(format!("L:{}:{}", h(rng.below(ni)), h(rng.below(nk)))),
             }
         }
